@@ -310,13 +310,6 @@ macro_rules! impl_radix_helper {
                 for (i, b) in buf.frac().iter_mut().enumerate() {
                     *b = self.mul10_assign();
 
-                    // Check if very close to zero, to avoid things like 0.19999999 and 0.20000001.
-                    // This takes place even if we have a precision.
-                    if self < 10 || self.wrapping_neg() < 10 {
-                        trim_to = Some(i + 1);
-                        break;
-                    }
-
                     if auto_prec {
                         // tie might overflow in last iteration when i = frac_digits - 1,
                         // but it has no effect as all it can do is set trim_to = Some(i + 1)
